@@ -93,8 +93,8 @@ structure VarBundle (e : BEnv) (Γ : Ctx) (cfg : SerCfg) (pcfg : ParserConfig) (
     (m : XmlMeta) (ci : ClassInfo) (ns : Option Str) (rec : Bool → QN → Val → Tree) (f : Nat)
     (var : XmlVar) (x : Val) : Prop where
   shape : Shape var x
-  items : ∀ y ∈ itemsN var x,
-    (∃ evs, itemGen e Γ cfg var ns (if var.listElement then f else f + 1) y = .ok evs ∧
+  items : ∀ y ∈ itemsN var x, ∀ fI, (fI = f + 1 ∨ (fI = f ∧ x.isArray = true)) →
+    (∃ evs, itemGen e Γ cfg var ns fI y = .ok evs ∧
       SubW M (isDatatype Γ) evs (treeSax (itemTreeNN M rec var y))) ∧
     plain M (itemTreeNN M rec var y) = true ∧ ItemP e Γ pcfg M m var y (itemTreeNN M rec var y)
   short : var.listElement = false → (itemsN var x).length ≤ 1
@@ -169,7 +169,8 @@ theorem prim_bundle (e : BEnv) (Γ : Ctx) (cfg : SerCfg) (pcfg : ParserConfig) (
     VarBundle e Γ cfg pcfg M m ci ns rec f var x := by
   unfold FN.elemValOK at hx
   simp only [hcl, hp] at hx
-  have hfI : 2 ≤ (if var.listElement then f else f + 1) := by split <;> omega
+  have hfI : ∀ fI, (fI = f + 1 ∨ (fI = f ∧ x.isArray = true)) → 2 ≤ fI := by
+    intro fI h; rcases h with h | h <;> omega
   by_cases htok : var.tokens = true
   · simp only [htok, if_true, Bool.true_or] at hx hd
     by_cases hl : var.listElement = true
@@ -191,11 +192,11 @@ theorem prim_bundle (e : BEnv) (Γ : Ctx) (cfg : SerCfg) (pcfg : ParserConfig) (
       refine ⟨Shape.tokLists xs htok hl (fun y hy => ⟨_, (hxs y hy).choose_spec.1⟩), ?_,
         fun h => by simp [hl] at h, ?_⟩
       · rw [hitems]
-        intro y hy
+        intro y hy fI hF
         obtain ⟨ys, rfl, hys⟩ := hxs y hy
         exact primItem_all e Γ cfg pcfg M ns rec hf hw hcl hty (PrimItem.toks ys htok hys)
           (fun h => by cases h) (fun p h => by cases h) (fun _ => hd.1)
-          (fun h => by simp [htok] at h) _ hfI
+          (fun h => by simp [htok] at h) fI (hfI fI hF)
       · rw [hitems]
         cases xs with
         | nil => exact Or.inr ⟨by simp [finalParam, hl], Or.inr ⟨rfl, hd.1⟩⟩
@@ -212,7 +213,7 @@ theorem prim_bundle (e : BEnv) (Γ : Ctx) (cfg : SerCfg) (pcfg : ParserConfig) (
           obtain ⟨p, rfl, _, _⟩ := hys a (by simp)
           simp [itemsN, htok]
       refine ⟨Shape.toks ys htok hl' hys.notArray, ?_, fun _ => ?_, ?_⟩
-      · intro y hy
+      · intro y hy fI hF
         have hyy : y = .list ys := by
           rw [hitems] at hy
           split at hy
@@ -223,7 +224,7 @@ theorem prim_bundle (e : BEnv) (Γ : Ctx) (cfg : SerCfg) (pcfg : ParserConfig) (
         subst hyy
         exact primItem_all e Γ cfg pcfg M ns rec hf hw hcl hty (PrimItem.toks ys htok hys)
           (fun h => by cases h) (fun p h => by cases h) (fun _ => hd.1)
-          (fun h => by simp [htok] at h) _ hfI
+          (fun h => by simp [htok] at h) fI (hfI fI hF)
       · rw [hitems]; split <;> (try split) <;> simp
       · rw [hitems]
         cases ys with
@@ -245,15 +246,15 @@ theorem prim_bundle (e : BEnv) (Γ : Ctx) (cfg : SerCfg) (pcfg : ParserConfig) (
       · intro y hy
         rcases hcases y hy with ⟨rfl, _⟩ | ⟨p, rfl, _, _⟩ <;> rfl
       · rw [hitems]
-        intro y hy
+        intro y hy fI hF
         rcases hcases y hy with ⟨rfl, hn⟩ | ⟨p, rfl, hpt, hemp⟩
         · exact primItem_all e Γ cfg pcfg M ns rec hf hw hcl hty (PrimItem.none hn)
             (fun _ => Or.inr ⟨hd.1, htok'⟩) (fun p h => by cases h) (fun h => by cases h)
-            (fun _ ys h => by cases h) _ hfI
+            (fun _ ys h => by cases h) fI (hfI fI hF)
         · exact primItem_all e Γ cfg pcfg M ns rec hf hw hcl hty (PrimItem.prim p hpt)
             (fun h => by cases h)
             (fun p' h => by cases h; exact ⟨htok', fun hp' => ⟨(hemp hp').1, Or.inr (Or.inr hd.1)⟩⟩)
-            (fun h => by cases h) (fun _ ys h => by cases h) _ hfI
+            (fun h => by cases h) (fun _ ys h => by cases h) fI (hfI fI hF)
       · rw [hitems]
         cases xs with
         | nil => exact Or.inr ⟨by simp [finalParam, hl], Or.inr ⟨rfl, hd.1⟩⟩
@@ -267,12 +268,12 @@ theorem prim_bundle (e : BEnv) (Γ : Ctx) (cfg : SerCfg) (pcfg : ParserConfig) (
         · have hitems : itemsN var .none = [.none] := by simp [itemsN, hn]
           refine ⟨Shape.none htok' hl', ?_, fun _ => by simp [hitems], Or.inl (by simp [hitems, finalParam, hl'])⟩
           rw [hitems]
-          intro y hy
+          intro y hy fI hF
           simp only [List.mem_singleton] at hy
           subst hy
           exact primItem_all e Γ cfg pcfg M ns rec hf hw hcl hty (PrimItem.none hn)
             (fun _ => Or.inl (hd.2 hn)) (fun p h => by cases h) (fun h => by cases h)
-            (fun _ ys h => by cases h) _ hfI
+            (fun _ ys h => by cases h) fI (hfI fI hF)
         · have hn' : var.nillable = false := by simpa using hn
           have hitems : itemsN var .none = [] := by simp [itemsN, hn']
           refine ⟨Shape.none htok' hl', by simp [hitems], fun _ => by simp [hitems], ?_⟩
@@ -287,7 +288,7 @@ theorem prim_bundle (e : BEnv) (Γ : Ctx) (cfg : SerCfg) (pcfg : ParserConfig) (
         · cases hpp
           refine ⟨Shape.prim p htok' hl', ?_, fun _ => by simp [hitems], Or.inl (by simp [hitems, finalParam, hl'])⟩
           rw [hitems]
-          intro y hy
+          intro y hy fI hF
           simp only [List.mem_singleton] at hy
           subst hy
           exact primItem_all e Γ cfg pcfg M ns rec hf hw hcl hty (PrimItem.prim p hpt)
@@ -299,7 +300,7 @@ theorem prim_bundle (e : BEnv) (Γ : Ctx) (cfg : SerCfg) (pcfg : ParserConfig) (
               · rw [hl'] at h; cases h
               · exact Or.inl h
               · exact Or.inr (Or.inl h))
-            (fun h => by cases h) (fun _ ys h => by cases h) _ hfI
+            (fun h => by cases h) (fun _ ys h => by cases h) fI (hfI fI hF)
       | list xs => simp [primItemOK] at hx
       | obj c fs => simp [primItemOK] at hx
       | any q tx tl a cs => simp [primItemOK] at hx
@@ -432,13 +433,13 @@ theorem cls_bundle (e : BEnv) (Γ : Ctx) (cfg : SerCfg) (pcfg : ParserConfig) (M
       · rfl
       · exact hobjOf y h
     · rw [hitems]
-      intro y hy
+      intro y hy fI hF
       have hsz := size_le_sizeList hy
       simp only [Val.size] at hfuel
+      have hfI : 4 * y.size + 3 ≤ fI := by rcases hF with h | h <;> omega
       rcases hcases y hy with ⟨rfl, hn, hmn⟩ | ⟨_, h⟩
-      · exact nilItem_cls e Γ cfg pcfg M _ _ hf hcl htk hm' hn hmn _ (by simp [hl]; omega)
-      · exact objItem_N e Γ cfg pcfg M n IH hf hcl htk hty hm' hns' q hnsq hmem y h _
-          (by simp [hl]; omega)
+      · exact nilItem_cls e Γ cfg pcfg M _ _ hf hcl htk hm' hn hmn fI (by omega)
+      · exact objItem_N e Γ cfg pcfg M n IH hf hcl htk hty hm' hns' q hnsq hmem y h fI hfI
     · rw [hitems]
       cases xs with
       | nil => exact Or.inr ⟨by simp [finalParam, hl], Or.inr ⟨rfl, hd⟩⟩
@@ -453,10 +454,11 @@ theorem cls_bundle (e : BEnv) (Γ : Ctx) (cfg : SerCfg) (pcfg : ParserConfig) (M
         refine ⟨Shape.none htk hl', ?_, fun _ => by simp [hitems],
           Or.inl (by simp [hitems, finalParam, hl'])⟩
         rw [hitems]
-        intro y hy
+        intro y hy fI hF
         simp only [List.mem_singleton] at hy
         subst hy
-        exact nilItem_cls e Γ cfg pcfg M _ _ hf hcl htk hm' hn hmn _ (by simp [hl']; omega)
+        exact nilItem_cls e Γ cfg pcfg M _ _ hf hcl htk hm' hn hmn fI
+          (by rcases hF with h | h <;> omega)
       · have hitems : itemsN var .none = [] := by simp [itemsN, hn]
         exact ⟨Shape.none htk hl', by simp [hitems], fun _ => by simp [hitems],
           Or.inr ⟨by simp [hitems, finalParam, hl'], Or.inl ⟨rfl, hfd⟩⟩⟩
@@ -465,11 +467,13 @@ theorem cls_bundle (e : BEnv) (Γ : Ctx) (cfg : SerCfg) (pcfg : ParserConfig) (M
       refine ⟨Shape.obj c' fs htk hl', ?_, fun _ => by simp [hitems],
         Or.inl (by simp [hitems, finalParam, hl'])⟩
       rw [hitems]
-      intro y hy
+      intro y hy fI hF
       simp only [List.mem_singleton] at hy
       subst hy
-      exact objItem_N e Γ cfg pcfg M n IH hf hcl htk hty hm' hns' q hnsq hmem _ (by simpa using hx) _
-        (by simp [hl']; omega)
+      exact objItem_N e Γ cfg pcfg M n IH hf hcl htk hty hm' hns' q hnsq hmem _ (by simpa using hx) fI
+        (by rcases hF with h | h
+            · omega
+            · simp [Val.isArray] at h)
     | prim p => simp at hx
     | list xs => simp at hx
     | any q' tx tl a cs => simp at hx
